@@ -17,6 +17,7 @@ CONSTANTS
   HasFallback = TRUE
   AllowClose = TRUE
   AllowDo = TRUE
+  AllowIndicate = TRUE
   IdleCollects = 0
   RtoChanges = 1
   DeadlineTicks = FALSE
